@@ -11,6 +11,7 @@ import (
 	"fmt"
 	"os"
 	"strings"
+	"sync"
 	"time"
 
 	badgerdb "github.com/dgraph-io/badger/v2"
@@ -41,6 +42,10 @@ type World struct {
 	// values handed out by the store earlier, with what they said at that time
 	// (C10: a handed-out value is a snapshot that later operations never alter)
 	snaps []snapshot
+
+	turn    sync.Mutex // one request at a time in full-stack worlds (script operations and agents' own calls)
+	emu     sync.Mutex // serialises trace emission (agents' loops log from their own goroutines)
+	lastNow int64      // model time of the last logged line
 
 	resets int
 }
